@@ -285,7 +285,15 @@ fn draw_items(ctx: &mut Ctx, cfg: &mut DCfg, chunk: u32, edge: bool) -> Vec<Item
             3 => ctx.ch.range("op.arg.len", 41, 5000),
             _ => ctx.ch.range("op.arg.len", 60_000, 70_000),
         };
-        let len = same_len.unwrap_or(len.min(c.saturating_mul(3000)) as usize);
+        let mut len = same_len.unwrap_or(len.min(c.saturating_mul(3000)) as usize);
+        if edge && kind < 2 && c >= 4096 && ctx.ch.chance("op.arg.over", 1, 250) {
+            // payloads around the 16,777,215-byte limit (costly, hence rare)
+            cfg.edge_values += 1;
+            len = *ctx.ch.pick("op.arg.overn", &[16_777_216usize, 16_777_215, 16_777_217]);
+            if len > 16_777_215 {
+                cfg.inexpressible.push("media payload > 16,777,215 bytes");
+            }
+        }
         if kind < 2 {
             let pt = last[kind].0;
             last[kind] = (ts, ts.wrapping_sub(pt), len, true);
